@@ -100,6 +100,10 @@ Resolved ==
       units |-> Nearest(Tail(levels), "units"),         \* units and default are typedef statements
       dflt |-> Nearest(Tail(levels), "dflt"),
       pats |-> IF next.n = "string" THEN pats ELSE <<>>,
+      \* a sibling leaf of the same type that adds the pattern "sibling-pat" instead of the leaf's own pattern
+      sibpats |-> IF next.n = "string"
+                  THEN Dedup(SelectSeq([k \in 1..Len(chain) |-> Rev(chain)[k].pat], LAMBDA p : p # "") \o <<"sibling-pat">>, {})
+                  ELSE <<>>,
       bound |-> IF chain = <<>> THEN "" ELSE chain[1].slot,
       \* union members: those written at the union, in order, equal members once
       members |-> IF next.n = "union" THEN Dedup(prog.members, {}) ELSE <<>>]
